@@ -812,9 +812,11 @@ func jwkEquivalent(a, b ref.JWTKey) bool {
 func roundTripSection(x *h.X) {
 	alg := h.Pick(x, "alg", algsFor(x, []string{"HS256", "HS512", "ES256", "ES384", "RS256", "RS512", "PS256", "PS384", "ML-DSA-65"}))
 	mode := h.Pick(x, "kid", kidModes)
-	shapes := []string{"single(manager)", "B,A*", "A*,B(disabled)", "B(destroyed),A*"}
+	// "same custom kid": two enabled keys of one algorithm with DIFFERENT material sharing one custom kid (a kid names
+	// a key for the issuer, nothing makes it unique in a keyset or a JWK set)
+	shapes := []string{"single(manager)", "B,A*", "A*,B(disabled)", "B(destroyed),A*", "B(same custom kid),A*"}
 	if x.Thorough() {
-		shapes = []string{"single(manager)", "single(proto)", "A*,B", "B,A*", "A*,B(disabled)", "B(destroyed),A*", "A*,C(other algorithm)"}
+		shapes = []string{"single(manager)", "single(proto)", "A*,B", "B,A*", "A*,B(disabled)", "B(destroyed),A*", "A*,C(other algorithm)", "B(same custom kid),A*", "A*,B(same custom kid)"}
 	}
 	shape := h.Pick(x, "keyset", shapes)
 	isMAC := strings.HasPrefix(alg, "HS")
@@ -846,7 +848,14 @@ func roundTripSection(x *h.X) {
 		x.Fail("construct", "%s: key A: %v", cfg, err)
 		return
 	}
-	B, err := buildKey(alg, 1, mode, 0x8899aabb, "kid-B")
+	kidB := "kid-B"
+	if strings.Contains(shape, "same custom kid") {
+		if mode != ref.JWTKidCustom {
+			return // the shape only exists with custom kids
+		}
+		kidB = kidA
+	}
+	B, err := buildKey(alg, 1, mode, 0x8899aabb, kidB)
 	if err != nil {
 		x.Fail("construct", "%s: key B: %v", cfg, err)
 		return
@@ -858,8 +867,10 @@ func roundTripSection(x *h.X) {
 		es = []ksEntry{{b: A, primary: true}}
 	case "A*,B":
 		es = []ksEntry{{b: A, primary: true}, {b: B}}
-	case "B,A*":
+	case "B,A*", "B(same custom kid),A*":
 		es = []ksEntry{{b: B}, {b: A, primary: true}}
+	case "A*,B(same custom kid)":
+		es = []ksEntry{{b: A, primary: true}, {b: B}}
 	case "A*,B(disabled)":
 		es = []ksEntry{{b: A, primary: true}, {b: B, disabled: true}}
 	case "B(destroyed),A*":
